@@ -285,6 +285,7 @@ class State:
         self.cond_seen = {}       # chunk id -> len(pc) at the last undetermined check
         self.decided = {}         # id of a decided condition term -> its value on this path
         self.bit_origin = {}      # id of an integer term -> (bits LSB first, sign Bool): its two's complement reading
+        self.fresh_ids = set()    # ids of python containers allocated by the program during this run
         self.keep = []            # keep z3 terms alive (ids are reused otherwise)
         self.pack_cache = {}
         self.str_lits = {}
@@ -303,6 +304,12 @@ class State:
         if sort is None:
             return z3.Int(name)
         return z3.Const(name, sort)
+
+    def allocated(self, obj):
+        """Record a container the program under analysis created itself (freshness / frame conditions, C16)."""
+        self.fresh_ids.add(id(obj))
+        self.keep.append(obj)
+        return obj
 
     def fresh_int(self, base='i'):
         return z3.Int('%s!%d' % (base, next(self.counter)))
